@@ -149,14 +149,17 @@ Proof. exact fill_fits. Qed.
 Print Assumptions fill_fits_unchanged.
 
 (* WHOLE FILE: write_to_file(width w) followed by update_from_file(case_sensitive = cs) of the written file gives the same
-   sections, keys, values and (empty) metadata in the same order, for every configuration whose flattened view is in
-   the sub-grammar `view_ok cs w`:
+   sections, keys, values and metadata in the same order, for every configuration whose flattened view is in the
+   sub-grammar `view_ok cs w`:
      - section names: non-empty, no "]", no line break, no "__", not starting with a blank; pairwise different;
      - sections non-empty, keys pairwise different; a key is non-empty, has no "=", ":" or line break, no trailing
        whitespace, does not start with "[", "#", ";" or whitespace, and is lower case unless case-sensitive;
      - values: non-empty, no leading/trailing whitespace, no line break (may contain "=", "{var}", blanks, anything else);
-     - no metadata, and every line `key<pad 30> = value` fits the width (no wrapping).
-   What stays out (see text_roundtrip_partial): metadata lines, wrapped lines, empty values. *)
+     - metadata: names pairwise different per entry, non-empty, no "=", no line break, no trailing whitespace, lower case
+       unless case-sensitive; a metadata value is absent (line `key:meta`) or like a value (line `key:meta = value`)
+       (that the option names key / key:meta of a section are then pairwise different is proved, not assumed);
+     - every written line (`key<pad 30> = value`, `key:meta<pad> = value`, `key:meta`) fits the width (no wrapping).
+   What stays out (see text_roundtrip_partial): wrapped lines, empty values. *)
 Theorem text_roundtrip : forall (cs : bool) (w : nat) (c : config),
   view_ok cs w (c_view c) ->
   answer all_off c (QReadBack w cs) = AContent (Ok (view_content (c_view c))).
@@ -220,6 +223,14 @@ Theorem replace_uses_current_vars :
 Proof. split; [exact replaced_uses_current_vars|exact clear_vars_forgets]. Qed.
 Print Assumptions replace_uses_current_vars.
 
+(* a value whose first word does not fit on the first line comes back with a leading blank *)
+Theorem c19_lead_refuted :
+  answer all_off w_lead_cfg (QReadBack 60 true) = AContent (Ok (view_content (c_view w_lead_cfg))) /\
+  answer q_only_lead w_lead_cfg (QReadBack 60 true) =
+  AContent (Ok [("sa", [("k1", " a-word-that-is-longer-than-the-rest-of-the-line", [])])]).
+Proof. exact lead_witness. Qed.
+Print Assumptions c19_lead_refuted.
+
 (* ---- non-vacuity *)
 
 (* two profiles define sa.k1; the first listed one wins; after re-prioritising the other one wins *)
@@ -253,6 +264,16 @@ Example view_ok_example :
                                           OUpdate (Upd "sb" "file_name" "/data/{yyyy}/x-y.txt" (Some "p1") "s" []) true;
                                           OUpdate (Upd "sa" "k2" "42" None "s" []) true;
                                           OProfiles (Some [Some "p1"])] (empty_config "c"))).
+Proof.
+  vm_compute c_view. split.
+  - repeat constructor; simpl; intuition discriminate.
+  - repeat constructor; simpl; try (intuition discriminate); try discriminate; try reflexivity; try lia.
+Qed.
+
+Example view_ok_meta_example :
+  view_ok true 200 (c_view (run all_off [OUpdate (Upd "sa" "k1" "a, b" None "s" [("type", Some "List[str]"); ("help", None)]) true;
+                                         OUpdate (Upd "sa" "k2" "42" None "s" [("Unit", Some "m/s = meter per second")]) true]
+                                        (empty_config "c"))).
 Proof.
   vm_compute c_view. split.
   - repeat constructor; simpl; intuition discriminate.
